@@ -3,7 +3,7 @@ import sympy as sp
 
 from ..facts import AnalysisBroken, walk
 from ..pp import pp, skip
-from ..util import args, assignment, callee, is_call, literal_value, ref_decl, find_var
+from ..util import args, assignment, callee, is_call, literal_value, ref_decl, find_var, obj
 from .. import kalg
 from .c08 import switch_table
 
@@ -285,20 +285,7 @@ def rule_done(F, R):
         R.bad("R-C14-4", "categorical mask reset", f.loc(), "the branch disabling scaling for masked columns vanished")
     mf = [g for g in F.in_file(FILE) if g.qn == "nano::scalar_stats_t::make_flatten_stats"]
     for g in mf[:1]:
-        okm = False
-        for n in g.nodes():
-            a = assignment(n)
-            if a and "enable_scaling" in pp(a[0]):
-                rhs = skip(a[1])
-                while rhs["k"] == "cast":
-                    rhs = skip(rhs["c"][0])
-                if rhs["k"] == "cond":
-                    cvar = ref_decl(rhs["c"][0])
-                    var, _ = find_var(g, cvar) if cvar is not None else (None, None)
-                    init = pp(var["c"][0]) if var is not None and var.get("c") else pp(rhs["c"][0])
-                    okm = "is_sclass()" in init and "is_mclass()" in init and "||" in init and literal_value(rhs["c"][1]) == 0 and literal_value(rhs["c"][2]) == 1
-        R.check(okm, "R-C14-4", "flatten mask", g.loc(), "columns of single- and multi-label features are masked (0), the others enabled (1)",
-                "categorical columns are no longer masked out of scaling")
+        _flatten_mask(F, R, g)
 
     # R-C14-6: sqrt arguments and denominators have a provable sign under the enclosing guards
     nsq = 0
@@ -497,6 +484,90 @@ def rule_scratch_buffers(F, R):
                     "in its tail, so whatever consumes the buffer sees samples twice (statistics: inflated counts, shifted mean / deviation)" % (
                         txt[:40], ", ".join(str(y["l"]) for y in reads[:3])))
     R.floor("R-C14-9", n, 6, "flatten()/targets() calls with a scratch buffer in src/dataset")
+
+
+def _flatten_mask(F, R, g):
+    """the mask handed to the finaliser by make_flatten_stats, evaluated for model datasets (3 features of 2, 1 and 2 columns, every assignment of
+    the four feature kinds): column c is masked (0) exactly when feature column2feature(c) is single- or multi-label, enabled (1) otherwise"""
+    import itertools
+    import sympy as sp
+    from ..symexec import Interp
+    from ..kalg import OutOfFragment
+    dones = [c for c in g.calls(lambda n: callee(n).split("::")[-1] == "done" and len(args(n)) == 2)]
+    if len(dones) != 1 or ref_decl(args(dones[0])[1]) is None:
+        R.incomplete("R-C14-4", "flatten mask", g.loc(), "expected one call done(stats, mask) with a local mask")
+        return
+    md = ref_decl(args(dones[0])[1])
+    var, _ = find_var(g, md)
+    blk = None
+    for n in g.nodes():
+        if n["k"] == "block" and any(c_ is not None and c_["k"] == "declstmt" and any(v_ is var for v_ in c_.get("c", ())) for c_ in n.get("c", ())):
+            blk = n
+    if var is None or blk is None:
+        R.incomplete("R-C14-4", "flatten mask", g.loc(), "the declaration of the mask was not found")
+        return
+    stmts, on = [], False
+    for c_ in blk["c"]:
+        if c_ is not None and c_["k"] == "declstmt" and any(v_ is var for v_ in c_.get("c", ())):
+            on = True
+            continue
+        if c_ is not None and any(x is dones[0] for x in walk(c_)):
+            break
+        if on:
+            stmts.append(c_)
+    table = [0, 0, 1, 2, 2]
+    KINDS = ("sclass", "mclass", "scalar", "struct")
+
+    class MI(Interp):
+        kinds = ()
+
+        def ev(self, n):
+            n2 = skip(n)
+            if n2 is not None and n2["k"] == "call":
+                q = callee(n2)
+                nm = q.split("::")[-1]
+                if q == "nano::dataset_t::column2feature":
+                    i = sp.sympify(self.ev(args(n2)[0]))
+                    if not i.is_Integer or not 0 <= int(i) < len(table):
+                        raise OutOfFragment("column2feature(%s)" % i)
+                    return sp.Integer(table[int(i)])
+                if q == "nano::dataset_t::feature":
+                    i = sp.sympify(self.ev(args(n2)[0]))
+                    if not i.is_Integer or not 0 <= int(i) < len(self.kinds):
+                        raise OutOfFragment("feature(%s)" % i)
+                    return ("feature", self.kinds[int(i)])
+                if q == "nano::dataset_t::columns":
+                    return sp.Integer(len(table))
+                if q == "nano::dataset_t::features":
+                    return sp.Integer(len(self.kinds))
+                if q.startswith("nano::feature_t::is_"):
+                    o = self.ev(obj(n2))
+                    if not (isinstance(o, tuple) and o and o[0] == "feature"):
+                        raise OutOfFragment(pp(n2)[:40])
+                    return sp.true if nm == "is_" + o[1] else sp.false
+            return super().ev(n)
+
+    bad = None
+    nrun = 0
+    try:
+        for kinds in itertools.product(KINDS, repeat=3):
+            it = MI(F, g, n=1)
+            it.kinds = kinds
+            it.env[md] = [sp.Symbol("unset")] * len(table)
+            for s_ in stmts:
+                it.ex(s_)
+            got = it.env[md]
+            want = [0 if kinds[table[c]] in ("sclass", "mclass") else 1 for c in range(len(table))]
+            nrun += 1
+            if [sp.sympify(x) for x in got] != [sp.Integer(x) for x in want]:
+                bad = "features (%s) flattened to the columns %s: the mask is %s, expected %s" % (", ".join(kinds), table, list(got), want)
+                break
+    except OutOfFragment as e:
+        R.incomplete("R-C14-4", "flatten mask", g.loc(), "cannot evaluate the construction of the mask: %s" % e)
+        return
+    R.check(bad is None, "R-C14-4", "flatten mask", g.loc(), "columns of single- and multi-label features are masked (0), the others enabled (1) "
+            "(mask evaluated for %d assignments of feature kinds to a 3-feature, 5-column layout)" % nrun,
+            "categorical columns are no longer masked out of scaling (or continuous ones no longer enabled): %s" % bad)
 
 
 def run(ctx):
